@@ -487,6 +487,21 @@ macro_rules! generate_opcodes {
             ),*
         }
 
+        #[cfg(boa_verif)]
+        impl Instruction {
+            #[allow(unused_parens)]
+            pub(crate) fn verif_fields(&self) -> (&'static str, Vec<(&'static str, crate::verif::Operand)>) {
+                match self {
+                    $(
+                        Self::$Variant $({ $($FieldName),* })? => (
+                            stringify!($Variant),
+                            vec![$($((stringify!($FieldName), crate::verif::VerifOperand::verif_operand($FieldName))),*)?],
+                        )
+                    ),*
+                }
+            }
+        }
+
         impl Bytecode {
             #[allow(unused_parens)]
             pub(crate) fn next_instruction(&self, pc: usize) -> (Instruction, usize) {
